@@ -749,7 +749,7 @@ def probe_fixwindow(spec):
     try:
         op2 = rebuilt(mk_prices(spec))
         o['fixed'] = dump_problem(op2)
-        r2 = op2.optimize()
+        r2 = op2.optimize(**({'make_soft_problem': True} if fx.get('soft') else {}))
         o['solve2'] = r2 if isinstance(r2, str) else 'optimal'
         if not isinstance(r2, str):
             o['x2'] = [float(v) for v in r2.x]
